@@ -282,6 +282,30 @@ Definition hkf_c (cs : list hcase) : list nat := map hid (filter hkf_c_case cs).
 Definition hcount_nontrivial (cs : list hcase) : list nat :=
   [length (filter hnontrivial cs)].
 
+(* ---- option values and loader slices used more than once ------------------------------------------
+   The option values (app.SetConfigLoader(ls...) / AddConfigLoader(ls...) / SetConfig(file)) and the loader slices
+   are built ONCE and applied round after round: to a new App, to the same App started again, to a new App on the
+   same Configure, to Configures driven directly.  A value is a value: every object (App / Configure) that is
+   configured from them goes through its own history, [robjs] lists them with what was observed; each is checked
+   and judged exactly like a history on one Configure. *)
+Record rcase := mkRCase { rid : nat; robjs : list hcase }.
+
+Definition check_rcase (c : rcase) : bool := forallb (fun h => check_hcase h && wf_hcase h) (robjs c).
+Definition oracle_rcase (c : rcase) : bool := forallb oracle_hcase (robjs c).
+Definition rkf_b_case (c : rcase) : bool := negb (oracle_rcase c) && forallb (horacle_gen true) (robjs c).
+Definition rkf_c_case (c : rcase) : bool :=
+  negb (oracle_rcase c) && forallb (fun h => oracle_hcase h || hkf_c_case h) (robjs c).
+(* non-trivial: the values were used for at least two Initializes *)
+Definition rnontrivial (c : rcase) : bool :=
+  (2 <=? length (filter (fun o => match o with HInit _ _ => true | _ => false end)
+                        (flat_map hsteps (robjs c))))%nat.
+
+Definition rmismatches (cs : list rcase) : list nat := map rid (filter (fun c => negb (check_rcase c)) cs).
+Definition rviolations (cs : list rcase) : list nat := map rid (filter (fun c => negb (oracle_rcase c)) cs).
+Definition rkf_b (cs : list rcase) : list nat := map rid (filter rkf_b_case cs).
+Definition rkf_c (cs : list rcase) : list nat := map rid (filter rkf_c_case cs).
+Definition rcount_nontrivial (cs : list rcase) : list nat := [length (filter rnontrivial cs)].
+
 Definition mismatches (cs : list case) : list nat :=
   map cid (filter (fun c => negb (check_case c && wf_case c)) cs).
 Definition violations (cs : list case) : list nat :=
